@@ -116,33 +116,66 @@ def run(ctx):
     ctx.extra.setdefault('part_wall_s', {})['c18_date'] = round(time.time() - t0, 1)
 
 
+BATCH = 400000
+
+
 def _run(ctx):
+    import itertools
+    state = {'nformat': 0, 'first': [], 'last': [], 'spec': {}}
     if ctx.replay:
         c = ctx.replay.get('case', {})
         if c.get('part') != 'date':
             return
-        cases = [(int(c['t']), 'replay')]
-    else:
-        cases = list(gen(ctx))
-        if ctx.tier == 'thorough':
-            ctx.exhaustive = True
-            ctx.extra['date_exhaustive_domains'] = ['first and last second of every day 1970-01-01..9999-12-31']
+        check_batch(ctx, [(int(c['t']), 'replay')], state, 1)
+        return
+    if ctx.tier == 'thorough':
+        ctx.exhaustive = True
+        ctx.extra['date_exhaustive_domains'] = ['first and last second of every day 1970-01-01..9999-12-31']
+    it = gen(ctx)
+    spec_step = 1 if ctx.tier == 'thorough' else 17
+    while True:
+        cases = list(itertools.islice(it, BATCH))
+        if not cases:
+            break
+        check_batch(ctx, cases, state, spec_step)
+    run_spec(ctx, state)
+    # outside the property's range: correspondence only
+    ts = out_of_range(ctx)
+    lines = ['date %d' % t for t in ts]
+    m2, i2 = ctx.both(lines)
+    for t, a, b in zip(ts, m2, i2):
+        ctx.count('date:out-of-range:' + ('panic' if b == 'PANIC' else 'value'))
+        if a != b:
+            ctx.report({'part': 'date', 't': t, 'line': 'date %d' % t, 'out_of_range': True}, 'impl=' + b, 'model=' + a,
+                       cls='date-model-mismatch-out-of-range', failing_input=False,
+                       what='model and implementation differ on a timestamp outside 1970..9999 (not part of the property)')
+    for t, tag in state['first'] + state['last']:
+        ctx.sample({'part': 'date', 't': t, 'stream': tag, 'expected': unhx(oracle(t)[0].split(' ')[-1]).decode()
+                    if 0 <= t < END else None})
+
+
+def check_batch(ctx, cases, state, spec_step):
+    if not state['first']:
+        state['first'] = cases[:2]
+    state['last'] = cases[-2:]
     lines = ['date %d' % t for t, _ in cases]
     m, im = ctx.both(lines)
-    nformat = 0
+    cnt = {}
     for (t, tag), a, b in zip(cases, m, im):
-        ctx.count('date:' + tag)
-        case = {'part': 'date', 't': t, 'line': 'date %d' % t}
+        cnt[tag] = cnt.get(tag, 0) + 1
         if not (0 <= t < END):
             continue
         want, d = oracle(t)
         if interesting(d, t % 86400, tag):
             ctx.mark_nontrivial(('date', t))
-        ctx.count('date:weekday:%s' % DAYN[(d.weekday() + 1) % 7])
-        ctx.count('date:month:%s' % MONN[d.month - 1])
-        if nformat < 3000 and (t % 97 == 0 or tag == 'corpus'):
+        k = (d.weekday(), d.month)
+        cnt[k] = cnt.get(k, 0) + 1
+        if b == want and a == want and not (t % 97 == 0 or tag == 'corpus'):
+            continue
+        case = {'part': 'date', 't': t, 'line': 'date %d' % t}
+        if state['nformat'] < 3000 and (t % 97 == 0 or tag == 'corpus'):
             # second, slower, library oracle for the string
-            nformat += 1
+            state['nformat'] += 1
             lib = email.utils.formatdate(t, usegmt=True)
             if hx(lib) != want.split(' ')[-1]:
                 ctx.report(case, 'formatdate=' + lib, 'reference=' + unhx(want.split(' ')[-1]).decode(), cls='oracle-vs-oracle',
@@ -157,38 +190,40 @@ def _run(ctx):
             ctx.report(case, 'impl=' + shown + ' model=' + a, 'spec=' + want, cls='date-wrong', failing_input=True,
                        what='DateTime::from(%d) gives %s; correct is %s' % (
                            t, shown, unhx(want.split(' ')[-1]).decode()))
-    # the extracted day-counting spec (civil = iterate next_day) on a sorted subsample, compared with the implementation
-    if not ctx.replay:
-        in_range = sorted(set(t for t, _ in cases if 0 <= t < END))
-        step = 1 if ctx.tier == 'thorough' else max(1, len(in_range) // 60000)
-        sub = in_range[::step]
-    else:
-        sub = [t for t, _ in cases if 0 <= t < END]
-    if sub:
-        sm = ctx.model(['date_spec %d' % t for t in sub])
-        byt = {t: b for (t, _), b in zip(cases, im)}
-        ctx.evaluations += len(sub)
-        for t, s in zip(sub, sm):
-            ctx.count('date:counting-spec')
-            b = byt[t].split(' ')
-            if len(b) != 9:
-                continue   # already reported above
-            got = '%s %d %s %s %s' % (b[1], int(b[2]) + 1, b[3], b[4], b[8])
-            if got != s:
-                ctx.report({'part': 'date', 't': t, 'line': 'date %d' % t}, 'impl=' + got, 'counting-spec=' + s,
-                           cls='date-wrong', failing_input=True,
-                           what='DateTime::from(%d) differs from day-by-day counting (extracted next_day) / RFC layout' % t)
-    # outside the property's range: correspondence only
-    if not ctx.replay:
-        ts = out_of_range(ctx)
-        lines = ['date %d' % t for t in ts]
-        m2, i2 = ctx.both(lines)
-        for t, a, b in zip(ts, m2, i2):
-            ctx.count('date:out-of-range:' + ('panic' if b == 'PANIC' else 'value'))
-            if a != b:
-                ctx.report({'part': 'date', 't': t, 'line': 'date %d' % t, 'out_of_range': True}, 'impl=' + b, 'model=' + a,
-                           cls='date-model-mismatch-out-of-range', failing_input=False,
-                           what='model and implementation differ on a timestamp outside 1970..9999 (not part of the property)')
-    for t, tag in cases[:2] + cases[-2:]:
-        ctx.sample({'part': 'date', 't': t, 'stream': tag, 'expected': unhx(oracle(t)[0].split(' ')[-1]).decode()
-                    if 0 <= t < END else None})
+    for k, v in cnt.items():
+        if isinstance(k, tuple):
+            ctx.count('date:weekday:%s' % DAYN[(k[0] + 1) % 7], v)
+            ctx.count('date:month:%s' % MONN[k[1] - 1], v)
+        else:
+            ctx.count('date:' + k, v)
+    # the extracted day-counting spec (civil = iterate next_day), compared with the implementation:
+    # thorough = every case of the batch (batches are contiguous in time, so the cached walk stays short);
+    # quick = every 17th case, collected and run once at the end (one walk per shard)
+    k = 0
+    for (t, _), b in zip(cases, im):
+        if 0 <= t < END:
+            k += 1
+            if k % spec_step == 0:
+                state['spec'][t] = b
+    if ctx.tier == 'thorough' or ctx.replay:
+        run_spec(ctx, state)
+
+
+def run_spec(ctx, state):
+    byt = state['spec']
+    state['spec'] = {}
+    sub = sorted(byt)
+    if not sub:
+        return
+    sm = ctx.model(['date_spec %d' % t for t in sub])
+    ctx.evaluations += len(sub)
+    ctx.count('date:counting-spec', len(sub))
+    for t, s in zip(sub, sm):
+        b = byt[t].split(' ')
+        if len(b) != 9:
+            continue   # already reported by the field comparison
+        got = '%s %d %s %s %s' % (b[1], int(b[2]) + 1, b[3], b[4], b[8])
+        if got != s:
+            ctx.report({'part': 'date', 't': t, 'line': 'date %d' % t}, 'impl=' + got, 'counting-spec=' + s,
+                       cls='date-wrong', failing_input=True,
+                       what='DateTime::from(%d) differs from day-by-day counting (extracted next_day) / RFC layout' % t)
